@@ -289,6 +289,18 @@ package factstore
 //@   modifies nothing
 //@   ensures result == (a in view(self))
 
+//@ func (self ReadOnlyFactStore) GetFacts(a, fn)
+//@   modifies nothing
+
+//@ func (self ReadOnlyFactStore) ListPredicates()
+//@   modifies nothing
+
+//@ func (self ReadOnlyFactStore) EstimateFactCount()
+//@   modifies nothing
+
+//@ func (self FactStore) Merge(other)
+//@   modifies view(self)
+
 //@ func (self FactStore) Add(a)
 //@   modifies view(self)
 //@   ensures result == !old(a in view(self))
@@ -361,3 +373,42 @@ package factstore
 //@   modifies view(s.writeStore)
 //@   ensures result == !old(mview(s, atom))
 //@   ensures forall b ast.Atom :: mview(s, b) == (old(mview(s, b)) || ast.atomEq(b, atom))
+
+// ---- C18: lock discipline of ConcurrentFactStore -----------------------------------------------------
+// Every base operation happens while this goroutine holds the lock (write lock for mutating operations),
+// and every path releases exactly what it acquired. Schedules are not explored; see DESIGN.md.
+
+//@ func (s ConcurrentFactStore) Add(a)
+//@   requires s.mutex != nil && s.base != nil && sync.held(s.mutex) == 0
+//@   guard call Add: sync.held(s.mutex) == 2
+//@   ensures sync.held(s.mutex) == 0
+
+//@ func (s ConcurrentFactStore) Remove(a)
+//@   requires s.mutex != nil && s.base != nil && sync.held(s.mutex) == 0
+//@   guard call Remove: sync.held(s.mutex) == 2
+//@   ensures sync.held(s.mutex) == 0
+
+//@ func (s ConcurrentFactStore) Merge(other)
+//@   requires s.mutex != nil && s.base != nil && sync.held(s.mutex) == 0
+//@   guard call Merge: sync.held(s.mutex) == 2
+//@   ensures sync.held(s.mutex) == 0
+
+//@ func (s ConcurrentFactStore) Contains(a)
+//@   requires s.mutex != nil && s.base != nil && sync.held(s.mutex) == 0
+//@   guard call Contains: sync.held(s.mutex) >= 1
+//@   ensures sync.held(s.mutex) == 0
+
+//@ func (s ConcurrentFactStore) GetFacts(a, fn)
+//@   requires s.mutex != nil && s.base != nil && sync.held(s.mutex) == 0
+//@   guard call GetFacts: sync.held(s.mutex) >= 1
+//@   ensures sync.held(s.mutex) == 0
+
+//@ func (s ConcurrentFactStore) ListPredicates()
+//@   requires s.mutex != nil && s.base != nil && sync.held(s.mutex) == 0
+//@   guard call ListPredicates: sync.held(s.mutex) >= 1
+//@   ensures sync.held(s.mutex) == 0
+
+//@ func (s ConcurrentFactStore) EstimateFactCount()
+//@   requires s.mutex != nil && s.base != nil && sync.held(s.mutex) == 0
+//@   guard call EstimateFactCount: sync.held(s.mutex) >= 1
+//@   ensures sync.held(s.mutex) == 0
